@@ -372,7 +372,7 @@ def run_check(prop: str, streams: list[Stream], tier: str, seed: int, *, level_t
     samples = []
     total_eval = 0
     nontriv = set()
-    replay_dir = os.path.join(VERIF, "replays", prop)
+    replay_dir = os.path.join(os.environ.get("VERIF_REPLAY_DIR", os.path.join(VERIF, "replays")), prop)
 
     if gate:
         p = os.path.join(replay_dir, "static_gate.json")
@@ -481,7 +481,7 @@ def run_check(prop: str, streams: list[Stream], tier: str, seed: int, *, level_t
     }
     if extra:
         ev["coverage"].update(extra)
-    write_json(os.path.join(VERIF, "evidence", f"{prop}.json"), ev)
+    write_json(os.path.join(os.environ.get("VERIF_EVIDENCE_DIR", os.path.join(VERIF, "evidence")), f"{prop}.json"), ev)
     for line in known_lines:
         print(line)
     for rp, tail in violations:
